@@ -46,9 +46,10 @@ class Layout:
 
 
 def generate(rng, hostile=False, regimes=("lf", "crlf", "cr", "mixed"), max_files=5, max_pats=4, shared=0.5, glob=0.15, partial=0.3, legacy=False,
-             stale=0.0, only_partial=0.0, repeat=0.15):
+             stale=0.0, only_partial=0.0, repeat=0.15, touch=0.3):
     """stale: probability that a file still shows an OLDER version (as after a branch switch or a missed update);
-    only_partial: probability that a file carries partial patterns only (copyright year, MAJOR.MINOR)"""
+    only_partial: probability that a file carries partial patterns only (copyright year, MAJOR.MINOR);
+    touch: probability that two occurrences sharing a line are written without anything between them (end of one = start of the other)"""
     from bumpver import v2version
     lay = Layout()
     lay.vp = rng.choice(VERSION_PATTERNS)
@@ -114,7 +115,8 @@ def generate(rng, hostile=False, regimes=("lf", "crlf", "cr", "mixed"), max_file
         for li, ln in enumerate(lines):
             s = ""
             for k, (t, p) in enumerate(ln):
-                if k > 0 and s and not s.endswith(" "):
+                touching = k > 0 and p is not None and ln[k - 1][1] is not None and rng.random() < touch
+                if k > 0 and s and not s.endswith(" ") and not touching:
                     s += " "
                 if p is not None:
                     occ.append((li + 1, len(s), len(s) + len(t), p + 1))
